@@ -207,8 +207,7 @@ def gen_origin(rng: random.Random):
         b = rng.randint(a, 10)
         return CodeOrigin(rng.choice(_SRC), get_code_range(a, 1, a, b, 1, b))
     if k < 0.85:
-        a = rng.randint(0, 8)
-        return GeneratedCodeOrigin(rng.choice(_SRC), get_code_range(a, 1, a, a + 1, 1, a + 1))
+        return GeneratedCodeOrigin(rng.choice(_SRC))
     o1 = CodeOrigin(_SRC[0], get_code_range(0, 1, 0, 1, 1, 1))
     o2 = CodeOrigin(rng.choice(_SRC[1:]), get_code_range(3, 1, 3, 5, 1, 5))
     return MultiOrigin([o1, o2])
